@@ -25,6 +25,15 @@ RING_BUFFER_ITER_API(ring64, uint64_t)
 RING_BUFFER(ring64, uint64_t)
 RING_BUFFER_ITER(ring64, uint64_t)
 
+RING_BUFFER_API(ringf64, double)
+RING_BUFFER_ITER_API(ringf64, double)
+RING_BUFFER(ringf64, double)
+RING_BUFFER_ITER(ringf64, double)
+RING_BUFFER_API(ringf32, float)
+RING_BUFFER_ITER_API(ringf32, float)
+RING_BUFFER(ringf32, float)
+RING_BUFFER_ITER(ringf32, float)
+
 #define MAXCAP 700
 
 struct model {
@@ -320,6 +329,78 @@ u_history(uint64_t idx, void *arg)
     }
 }
 
+/* rings of floating-point elements: what comes out is what went in, bit for bit - both zeros, NaNs with payloads,
+ * infinities, subnormals (values that compare equal or unequal to themselves in ways integers never do) */
+#define FGEN(NAME, TYPE, UTYPE, TAG)                                                                                \
+    static void NAME##_fhistory(vh_rng *r, size_t cap, size_t nops)                                                 \
+    {                                                                                                               \
+        static const UTYPE special[] = { 0, (UTYPE)1 << (8 * sizeof(UTYPE) - 1), (UTYPE)~(UTYPE)0, 1,              \
+                                         (UTYPE)0x7ff0000000000000ull, (UTYPE)0x7f800000u, (UTYPE)0x7fc00001u,     \
+                                         (UTYPE)0x7ff8000000000001ull, (UTYPE)0x3ff0000000000000ull };              \
+        TYPE *data = vh_arena(cap * sizeof(TYPE));                                                                  \
+        NAME rb;                                                                                                    \
+        NAME##_init(&rb, data, cap);                                                                                \
+        UTYPE q[64];                                                                                                \
+        size_t n = 0;                                                                                               \
+        for (size_t i = 0; i < nops; i++) {                                                                         \
+            if (vh_chance(r, 11, 20)) {                                                                             \
+                UTYPE bits = vh_chance(r, 2, 3) ? special[vh_below(r, 9)] : (UTYPE)vh_rand(r);                      \
+                TYPE v;                                                                                             \
+                memcpy(&v, &bits, sizeof v);                                                                        \
+                NAME##_put(&rb, v);                                                                                 \
+                if (n < cap)                                                                                        \
+                    q[n++] = bits;                                                                                  \
+            } else {                                                                                                \
+                TYPE g = NAME##_get(&rb);                                                                           \
+                UTYPE gb;                                                                                           \
+                memcpy(&gb, &g, sizeof gb);                                                                         \
+                if (n) {                                                                                            \
+                    if (gb != q[0])                                                                                 \
+                        vh_fail("get", "type=" TAG, "cap=%zu step %zu: got bits %" PRIx64 " queued %" PRIx64, cap, i, (uint64_t)gb, \
+                                (uint64_t)q[0]);                                                                    \
+                    memmove(q, q + 1, (n - 1) * sizeof q[0]);                                                       \
+                    n--;                                                                                            \
+                }                                                                                                   \
+            }                                                                                                       \
+            rb_iter it;                                                                                             \
+            size_t k = 0;                                                                                           \
+            for (NAME##_iter(&it, &rb, RING_BUFFER_ITER_OLD_TO_NEW); !rb_iter_done(&it) && k <= n; rb_iter_advance(&it), k++) { \
+                TYPE v = NAME##_inspect(&rb, &it);                                                                  \
+                UTYPE vb;                                                                                           \
+                memcpy(&vb, &v, sizeof vb);                                                                         \
+                if (k < n && vb != q[k])                                                                            \
+                    vh_fail("iter-old-to-new", "type=" TAG, "cap=%zu step %zu: element %zu has bits %" PRIx64 " queued %" PRIx64, cap, i, \
+                            k, (uint64_t)vb, (uint64_t)q[k]);                                                       \
+            }                                                                                                       \
+            if (k != n || NAME##_size(&rb) != n)                                                                    \
+                vh_fail("size", "type=" TAG, "cap=%zu step %zu: %zu iterator steps, size %zu, queued %zu", cap, i, k,   \
+                        (size_t)NAME##_size(&rb), n);                                                               \
+        }                                                                                                           \
+        VH_COUNT("history on a ring of floating-point elements");                                                   \
+    }
+
+FGEN(ringf64, double, uint64_t, "f64")
+FGEN(ringf32, float, uint32_t, "f32")
+
+static void
+u_floatring(uint64_t idx, void *arg)
+{
+    (void)arg;
+    vh_rng r;
+    vh_unit_rng(&r, "floatring", idx);
+    for (int k = 0; k < 20; k++) {
+        vh_arena_reset();
+        size_t cap = 1 + (size_t)vh_below(&r, 9);
+        VH_CASE4(idx, k, cap, 0);
+        if (idx & 1)
+            ringf64_fhistory(&r, cap, 300);
+        else
+            ringf32_fhistory(&r, cap, 300);
+        *vh_ncases += 300;
+        vh_sig(0x19400000ull ^ (idx << 8) ^ (uint64_t)k);
+    }
+}
+
 /* capacities beyond 255 and 65535: indices that do not fit 8 or 16 bits; several wrap-arounds */
 static void
 u_bigcap(uint64_t idx, void *arg)
@@ -439,6 +520,9 @@ harness_run(void)
 {
     for (uint64_t i = 0; i < 14; i++)
         vh_unit("bigcap", i, u_bigcap, NULL);
+    for (uint64_t i = 0; i < (vh_tier ? 400u : 16u); i++)
+        vh_unit("floatring", i, u_floatring, NULL);
+    vh_require("history on a ring of floating-point elements");
     for (uint64_t i = 0; i < 12; i++)
         vh_unit("closure", i, u_closure, NULL);
     uint64_t nh = vh_tier ? 24000 : 160;
